@@ -152,6 +152,32 @@ def closed_form_search(ctx, nmax):
                     ctx.violation('default-count:%s' % method, '%s(num_extrap=%d)(0.5, %r, n=%d, order=%d) yields %d steps, the documented default count is %d' % (
                         cls.__name__, extrap, method, n, order, got, want), {'generator': cls.__name__, 'num_extrap': extrap, 'method': method, 'n': n, 'order': order, 'observed': got, 'documented': want})
                     return
+    # the documented defaults end to end (independent closed form): base step EPS**(1/scale) with the scale table per (method, n, order),
+    # nominal step max(log(1.718281828459045 + |x|), 1), exact-step rounding (h + 1) - 1 of base step and ratio, ratio 2 for n = 1 else 1.6
+    def doc_scale(method, n, order):
+        high = int(n > 1 or order >= 4)
+        o2 = max(order // 2 - 1, 0)
+        n4, nm = n // 4, n % 4
+        c = [n4 * (10 + 1.5 * int(n > 10)), 3.65 + n4 * (5 + 1.5 ** n4), 3.65 + n4 * (5 + 1.7 ** n4), 7.30 + n4 * (5 + 2.1 ** n4)][nm] if high else 0
+        return ({'multicomplex': 1.06, 'complex': 1.06 + c}.get(method, 2.5) + int(n - 1) * {'multicomplex': 0, 'complex': 0.0}.get(method, 1.3)
+                + o2 * {'central': 3, 'forward': 2, 'backward': 2}.get(method, 0))
+    eps_ = 2.0 ** -52
+    for method, n, order in itertools.product(['central', 'forward', 'backward', 'complex', 'multicomplex'], (1, 2, 3, 4, 5, 8), (1, 2, 4, 6)):
+        for x in (0.0, 0.3, -0.9, 5.0, -40.0, 1e3):
+            for exact in (True, False):
+                g = MinStepGenerator(use_exact_steps=exact, num_extrap=2)
+                obs = [float(t) for t in g(np.asarray(x), method, n, order)]
+                nom = max(math.log(1.718281828459045 + abs(x)), 1.0)
+                base = eps_ ** (1.0 / doc_scale(method, n, order)) * nom
+                ratio = 2.0 if n == 1 else 1.6
+                if exact:
+                    base, ratio = (base + 1.0) - 1.0, (ratio + 1.0) - 1.0
+                want = [base * ratio ** i for i in range(len(obs) - 1, -1, -1)]
+                ctx.count(1)
+                if not all(abs(o - w) <= 1e-12 * abs(w) for o, w in zip(obs, want)):
+                    ctx.violation('default-sequence:%s' % method, 'MinStepGenerator(use_exact_steps=%r, num_extrap=2)(%r, %r, n=%d, order=%d) yields %r, the documented defaults give %r' % (
+                        exact, x, method, n, order, obs[:3], want[:3]), {'x': x, 'method': method, 'n': n, 'order': order, 'use_exact_steps': exact, 'observed': obs, 'documented': want})
+                    return
     # defaults: ratio, count >= rule demand (the real classes, default generators)
     for method, n, order in itertools.product(['central', 'forward', 'backward', 'complex', 'multicomplex'], range(1, 11), range(1, 11)):
         if method == 'multicomplex' and n > 2:
